@@ -349,7 +349,9 @@ fn trace(out: &mut Out, ctl: &mut Ctl, seed: u64, n_calls: usize, st: &mut Stats
             for v in user_verdicts {
                 // the map behaviour of the user dictionary seen through the C calls: C09 (and C08: the learning entry point)
                 if let Some(rest) = v.strip_prefix("C16 ") {
+                    // the configuration (C16) and what the selection-key remap of chewing_handle_Default works with (C06)
                     verdicts.push(("C16", rest.to_string()));
+                    verdicts.push(("C06", rest.to_string()));
                 } else {
                     verdicts.push(("C09", v.clone()));
                     verdicts.push(("C08", v));
